@@ -172,6 +172,35 @@ def r10_2b(ctx):
             if c.get(cls, {0}) != {1}:
                 ctx.violation(construct(g, f"absence-update:{cls}"), g.loc(), f"the per-step absence update sets the state of a {cls} {sorted(c.get(cls, {0}))} time(s) (expected exactly once for every one): "
                               f"a resource that is skipped keeps last step's state and works through its own absence")
+    # the same table as R10.2, but through the entry point the simulation actually calls: one team with two workers, one workplace
+    # with two facilities (whatever the per-class methods say, this is the state a step starts from)
+    tm, wp = Obj("tm", TEAM), Obj("wp", WORKPLACE)
+    members = {WORKER: [Obj("w1", WORKER), Obj("w2", WORKER)], FACILITY: [Obj("f1", FACILITY), Obj("f2", FACILITY)]}
+    colls = {"self.team_list": [tm], "self.workplace_list": [wp], "tm.worker_list": members[WORKER], "wp.facility_list": members[FACILITY]}
+    cases = [(lst, step, held) for lst, step in (([3], 3), ([3], 2), ([6, 2], 2), ([], 0)) for held in (False, True)]
+    for first in cases:
+        for second in cases:
+            if first[1] != second[1]:
+                continue
+            heap = {}
+            for cls in (WORKER, FACILITY):
+                for o, (lst, _step, held) in zip(members[cls], (first, second)):
+                    heap[(o.name, "absence_time_list")] = ListV([Poly.const(x) for x in lst])
+                    heap[(o.name, "assigned_task_list")] = ListV([Obj("T", TASK)] if held else [])
+            I = mk_interp(ctx, inline=lambda call, callee, depth: True, collections=colls, max_depth=4)
+            outs = I.run_function(g, bind={g.params[1]: Poly.const(first[1])}, heap=heap)
+            for st, ex in outs:
+                for cls in (WORKER, FACILITY):
+                    for o, (lst, step, held) in zip(members[cls], (first, second)):
+                        v = st.heap.get((o.name, "state"))
+                        got = v.single() if isinstance(v, EnumSet) else None
+                        if ex is not None and ex[0] == "raise":
+                            got = "an exception"
+                        exp = "ABSENCE" if step in lst else ("WORKING" if held else "FREE")
+                        ctx.instance(construct(g, f"{o.name}:list={lst},step={step},holds={held}|other={first if o.name.endswith('2') else second}"), sample={"state": got})
+                        if got != exp:
+                            ctx.violation(construct(g, f"state-table:{cls}"), g.loc(), f"per-step absence update, {cls} `{o.name}` (own absence list {lst}, step {step}, {'holds' if held else 'holds no'} task; "
+                                          f"its neighbour: {first if o.name.endswith('2') else second}) => state {got} (expected {exp})")
     ctx.end()
 
 
